@@ -350,7 +350,8 @@ fn check_tape_c(tape: &[u8], gates: &Gates, stats: &mut Stats, counting: bool) -
     let profile = Profile::default();
     let mut t = Tape::new(tape);
     let unit = gen_unit(&mut t, gates, &profile);
-    let mut choice = t.rest();
+    let derived = crate::tape::derived(tape, 256);
+    let mut choice = Tape::new(&derived);
     for kind in ALL_FAULTS.iter() {
         let n = unit.sites[kind.index()];
         if n == 0 {
